@@ -729,24 +729,31 @@ func (r *rig) stepAnnounce(i int, how string, k int) error {
 		to = len(n.spec.Path)
 	}
 	n.pos = to
-	idxs := append([]int{}, n.spec.Path[from:to]...)
+	asked := n.gotSendH
+	have := n.peerBest
 	n.mu.Unlock()
 	step := fmt.Sprintf("announce %d %s %d", i, how, k)
-	// BIP 130: a block is announced with `headers` only when the announcing node believes the peer has the parent;
-	// otherwise it falls back to `inv`
-	if how == "headers" && !n.peerHas(from) {
-		how = "inv"
-		step += " (parent not known to be with the peer: falls back to inv)"
-	}
-	if how == "headers" && r.s.Engine == "exp" {
-		n.mu.Lock()
-		asked := n.gotSendH
-		n.mu.Unlock()
-		if !asked {
+	// BIP 130 as Bitcoin nodes implement it: once the peer has asked for it (`sendheaders`), new blocks are announced
+	// with `headers`; a headers announcement carries every block the peer is not known to have yet, provided it
+	// connects to something the peer has and is at most 8 long; otherwise the node falls back to `inv` of the new
+	// blocks. The default engine never sends `sendheaders`; there the scenario chooses (inv, or unsolicited headers
+	// under the same connect rule).
+	if r.s.Engine == "exp" {
+		if asked {
+			how = "headers"
+		} else {
 			how = "inv"
-			step += " (no sendheaders received: inv)"
 		}
 	}
+	if how == "headers" {
+		if have <= from && to-have <= 8 && have > 0 || (have == 0 && to <= 8) {
+			from = have
+		} else {
+			how = "inv"
+			step += " (headers would not connect to what the peer is known to have: inv)"
+		}
+	}
+	idxs := append([]int{}, n.spec.Path[from:to]...)
 	return r.stepPush(i, how, idxs, step)
 }
 
